@@ -125,8 +125,10 @@ def sample_opts(r, bias_valid):
             o["merge"], o["t_offset"] = False, 0.0
             if o["save"] != "kitti":
                 o["save"] = "kitti"
-        if r.random() < 0.6:
-            o["tf_side"] = r.choice([None, "left", "right"])
+        if o["tf_side"] == "both" and r.random() < 0.85:
+            o["tf_side"] = r.choice(["left", "right"])
+        if r.random() < 0.3:
+            o["tf_side"] = None
     return o
 
 
@@ -167,7 +169,7 @@ def build_case(r, o):
     for k in range(o["ntraj"]):
         rigid = (rot_axis(2, r.uniform(-1, 1)) @ rot_axis(0, r.uniform(-0.3, 0.3)), np.array([r.uniform(-2, 2) for _ in range(3)]))
         b = base if (o["merge"] is False or sub == "kitti") else [(t + (k * n + k) / 8 + k / 64, p, R) for t, p, R in base]
-        trajs.append(gen_traj(r, b, sub, 0.02, 0.15 if r.random() < 0.5 else 0.0, rigid, r.choice([1.0, 1.0, 1.3])))
+        trajs.append(gen_traj(r, b, sub, 0.02, 0.15 if r.random() < 0.3 else 0.0, rigid, r.choice([1.0, 1.0, 1.3])))
     ref = None
     if o["ref"] != "none":
         ref = gen_traj(r, base, sub, 0.0, 0.1 if r.random() < 0.3 else 0.0)
@@ -204,7 +206,7 @@ def gen_cases(ctx):
     ctx.notes["pairwise_uncovered"] = left
     for o in cov:
         yield build_case(r, o)
-    for _ in range(90 if not ctx.thorough else 1500):
+    for _ in range(90 if not ctx.thorough else 2300):
         yield build_case(r, sample_opts(r, r.random() < 0.9))
 
 
@@ -376,43 +378,58 @@ def interpret(case, d, plan, refplan):
             trajs = {traj_name(sub, k): reader(traj_name(sub, k)) for k in range(len(case["trajs"]))}
             ref = reader(ref_name(sub)) if case["ref"] is not None else None
             ref_tmp = {name: ref for name in trajs}
-            steps = [(RANK[s.split(":")[0]], "traj", s) for s in plan] + [(RANK[s.split(":")[0]], "ref", s) for s in refplan]
-            steps.sort(key=lambda x: (x[0], x[1] == "ref"))
-            for _, who, s in steps:
+            # stages in rank order; association / alignment / origin alignment (ranks 4-6) form one stage that run()
+            # executes trajectory by trajectory (only observable through which exception comes first)
+            stage = lambda s: 4 if RANK[s.split(":")[0]] in (4, 5, 6) else RANK[s.split(":")[0]]  # noqa: E731
+
+            def apply(s, who, name):
+                nonlocal trajs
                 f = s.split(":")
                 op = f[0]
-                targets = [ref] if who == "ref" else None
-                if op == "merge":
-                    trajs = {"merged_trajectory": trajectory.merge(list(trajs.values()))}
-                    ref_tmp = {"merged_trajectory": ref}
-                    continue
-                for name in ([None] if who == "ref" else list(trajs)):
-                    t = ref if who == "ref" else trajs[name]
-                    if op == "downsample":
-                        t.downsample(int(f[1]))
-                    elif op == "motion_filter":
-                        t.motion_filter(fr(f[1]), fr(f[2]), True)
-                    elif op == "t_offset":
-                        t.timestamps += fr(f[1])
-                    elif op == "sync":
-                        ref_tmp[name], trajs[name] = sync.associate_trajectories(ref, t, max_diff=fr(f[1]))
-                    elif op == "align":
-                        t.align(ref_tmp[name], correct_scale=f[1] == "1", correct_only_scale=f[2] == "1", n=int(f[3]))
-                    elif op == "align_origin":
-                        t.align_origin(ref_tmp[name])
-                    elif op == "transform":
-                        M = fi.load_transform(f"tf_{f[1]}." + case["tf"]["form"])
-                        if f[2] == "1":
-                            M = lie.se3_inverse(M) if lie.is_se3(M) else lie.sim3_inverse(M)
-                        t.transform(M, right_mul=f[3] == "1", propagate=f[4] == "1")
-                    elif op == "project":
-                        t.project(trajectory.Plane(f[1]))
-                    elif op in ("export_tum", "export_kitti"):
-                        stem = os.path.splitext(ref_name(sub) if who == "ref" else name)[0]
-                        if op == "export_tum":
-                            fi.write_tum_trajectory_file(os.path.join("interp", stem + ".tum"), t)
+                t = ref if who == "ref" else trajs[name]
+                if op == "downsample":
+                    t.downsample(int(f[1]))
+                elif op == "motion_filter":
+                    t.motion_filter(fr(f[1]), fr(f[2]), True)
+                elif op == "t_offset":
+                    t.timestamps += fr(f[1])
+                elif op == "sync":
+                    ref_tmp[name], trajs[name] = sync.associate_trajectories(ref, t, max_diff=fr(f[1]))
+                elif op == "align":
+                    t.align(ref_tmp[name], correct_scale=f[1] == "1", correct_only_scale=f[2] == "1", n=int(f[3]))
+                elif op == "align_origin":
+                    t.align_origin(ref_tmp[name])
+                elif op == "transform":
+                    M = fi.load_transform(f"tf_{f[1]}." + case["tf"]["form"])
+                    if f[2] == "1":
+                        M = lie.se3_inverse(M) if lie.is_se3(M) else lie.sim3_inverse(M)
+                    t.transform(M, right_mul=f[3] == "1", propagate=f[4] == "1")
+                elif op == "project":
+                    t.project(trajectory.Plane(f[1]))
+                elif op in ("export_tum", "export_kitti"):
+                    stem = os.path.splitext(ref_name(sub) if who == "ref" else name)[0]
+                    if op == "export_tum":
+                        fi.write_tum_trajectory_file(os.path.join("interp", stem + ".tum"), t)
+                    else:
+                        fi.write_kitti_poses_file(os.path.join("interp", stem + ".kitti"), t)
+
+            for st in sorted({stage(s) for s in plan + refplan}):
+                tsteps = [s for s in plan if stage(s) == st]
+                if st == 4:
+                    for name in list(trajs):
+                        for s in tsteps:
+                            apply(s, "traj", name)
+                else:
+                    for s in tsteps:
+                        if s == "merge":
+                            trajs = {"merged_trajectory": trajectory.merge(list(trajs.values()))}
+                            ref_tmp = {"merged_trajectory": ref}
                         else:
-                            fi.write_kitti_poses_file(os.path.join("interp", stem + ".kitti"), t)
+                            for name in list(trajs):
+                                apply(s, "traj", name)
+                for s in refplan:
+                    if stage(s) == st:
+                        apply(s, "ref", None)
             res["status"] = "ok"
         except SystemExit as e:
             res["status"] = f"exit{e.code}"
@@ -556,7 +573,7 @@ def o_associate(ref, tr, md):
         diffs = np.abs(long_ - t)
         j = int(np.argmin(diffs))
         srt = np.sort(diffs)
-        if abs(diffs[j] - md) < 1e-9 or (len(srt) > 1 and srt[1] - srt[0] < 1e-9):
+        if abs(diffs[j] - md) < 1e-9 or (len(srt) > 1 and 0 < srt[1] - srt[0] < 1e-9):
             raise Skip("borderline association")
         if diffs[j] <= md and (j not in best or diffs[j] < best[j][1]):
             best[j] = (i, diffs[j])
@@ -877,10 +894,8 @@ def shrink(case):
             c[key] = val
             if c["save_tum"] or c["save_kitti"]:
                 yield c
-    n = min(len(t["pos"]) for t in case["trajs"])
-    if n > 8 and case["ref"] is not None and case["sub"] != "kitti":
-        pass
-    elif n > 6 and case["ref"] is None:
+    n = min([len(t["pos"]) for t in case["trajs"]] + [10 ** 6])
+    if 6 < n < 10 ** 6 and case["ref"] is None:
         c = dict(case)
         c["trajs"] = [{k: v[:max(4, len(v) // 2)] for k, v in t.items()} for t in case["trajs"]]
         yield c
